@@ -28,7 +28,10 @@ RULE = ("records = (write/read history, storage configuration); histories are dr
         "elements at offsets 0..4096 sharing their file with foreign guard bytes in front, written completely and then "
         "partially rewritten near the end, with the guard bytes and the placement of the data in the external file "
         "checked at the end; in about half of all records 1-3 other attributes are set before and 0-3 after the fill "
-        "value ahead of the layout-selection call (the object's other metadata must not matter). Thorough tier: every chunk shape of every extent up to "
+        "value ahead of the layout-selection call (the object's other metadata must not matter), and for 30 % of the SD "
+        "records the layout is selected in a later session than SDcreate; SD_NOFILL sessions (chunked, compressed, n-bit, "
+        "contiguous); float64 datasets of 1-3 MB whose first write starts more than a megabyte in; GR writes/reads with "
+        "strides 1-3 incl. a sub-sampled first write into a new image. Thorough tier: every chunk shape of every extent up to "
         "4x4x3 with cache sizes 1..chunks+1. Each record's output is compared with the array specification. "
         "Function level: static chunk arithmetic of hchunks.c and mcache_get/put/sync vs the Coq models on generated "
         "and exhaustive small cases. A record is non-trivial when it transfers data under a non-baseline layout; "
@@ -51,7 +54,7 @@ ASSUMPTIONS = ["domain: fixed-size datasets (SDsetchunk rejects unlimited); n-bi
                "representable fill value (records whose written values are all representable are compared exactly, the others "
                "only after projecting the library's values, which cannot see a wrong fill/sign flag); non-chunked compressed datasets accept only appends and whole rewrites "
                "(coders return FAIL otherwise: a reported refusal ends the comparison of that record, silent corruption "
-               "does not); GR histories use stride 1 (strided GR writes belong to C09); GR write buffers are laid out in the "
+               "does not); GR write buffers are laid out in the "
                "interlace GRgetiminfo reports (creation interlace in the creating session, pixel after a reopen), read "
                "buffers in the interlace requested with GRreqimageil (pixel if never requested)",
                "GR chunk geometry follows GRsetchunk: the chunk layer views the pixel stream as an [xdim][ydim] array"]
@@ -103,11 +106,12 @@ class Rec:
         self.api, self.dims, self.nt, self.hasfill, self.fill = api, list(dims), nt, hasfill, fill
         self.cfg, self.ops, self.tag = cfg, ops, tag
         self.pre = self.post = 0     # other attributes set before / after the fill value, before the layout call
+        self.nofill = self.late = 0  # SD_NOFILL mode; layout selected in a later session than SDcreate
 
     def text(self, rid):
         c = self.cfg
         out = ["hist %s %d %d %s %d %d %d" % (rid, self.api, len(self.dims), " ".join(map(str, self.dims)), self.nt,
-                                             (self.hasfill & 1) | (self.pre << 1) | (self.post << 3), self.fill),
+                                             (self.hasfill & 1) | (self.pre << 1) | (self.post << 3) | (self.nofill << 5) | (self.late << 6), self.fill),
                "cfg %d %d %d %d %d %d %d %s" % (c["kind"], c.get("cache", 0), c.get("coder", 0), c.get("p1", 0),
                                                c.get("p2", 0), c.get("p3", 0), c.get("p4", 0),
                                                " ".join(map(str, c.get("cl", [0] * len(self.dims)))))]
@@ -132,7 +136,7 @@ class Rec:
         return "\n".join(out)
 
     def key(self):
-        return (self.api, tuple(self.dims), self.nt, self.fill, self.pre, self.post, tuple(sorted((k, str(v)) for k, v in self.cfg.items())),
+        return (self.api, tuple(self.dims), self.nt, self.fill, self.pre, self.post, self.nofill, self.late, tuple(sorted((k, str(v)) for k, v in self.cfg.items())),
                 tuple(str(o)[:80] for o in self.ops))
 
 
@@ -149,6 +153,7 @@ def parse_records(text):
             nt, hf, fill = map(int, t[4 + rank:7 + rank])
             cur = Rec(api, dims, nt, hf & 1, fill, {}, [])
             cur.pre, cur.post = (hf >> 1) & 3, (hf >> 3) & 3
+            cur.nofill, cur.late = (hf >> 5) & 1, (hf >> 6) & 1
         elif t[0] == "cfg":
             n = list(map(int, t[1:]))
             cur.cfg = {"kind": n[0], "cache": n[1], "coder": n[2], "p1": n[3], "p2": n[4], "p3": n[5], "p4": n[6],
@@ -607,6 +612,116 @@ def hlevel_records(g, tier):
     return recs
 
 
+def run_block(g, dims, lead_lo=None):
+    """a slab that is one contiguous run of the stream: a range of the first dimension, everything of the others"""
+    r = g.r
+    a = r.randrange(0, dims[0]) if lead_lo is None else lead_lo
+    k = r.randrange(1, dims[0] - a + 1)
+    return [a] + [0] * (len(dims) - 1), [1] * len(dims), [k] + list(dims[1:])
+
+
+def round4_records(g, tier):
+    """(a) SD_NOFILL sessions; (b) datasets of more than a megabyte whose first write starts far inside (the fill in front
+    is written in pieces); (c) GR writes and reads with strides, first write into a new image included"""
+    r = g.r
+    recs = []
+    reps = 6 if tier == "quick" else 30
+    # (a) no-fill mode.  Chunked and compressed layouts still give fill values for what was never written (the chunk
+    # layer fills pages, the coders need the whole element laid down); a contiguous dataset promises nothing there, so
+    # its reads stay inside what was written.
+    for _ in range(reps * 2):
+        rank = r.choice([1, 2, 2, 3])
+        dims = [r.randrange(3, 8)] + [r.randrange(1, 5) for _ in range(rank - 1)]
+        nt = r.choice(list(NTS))
+        lo, hi = vrange(nt)
+        fill = r.randrange(lo, hi + 1)
+        s_, t_, e_ = run_block(g, dims)
+        if s_[0] + e_[0] == dims[0] and dims[0] > 1:      # leave something behind the slab
+            e_[0] = max(1, e_[0] - 1) if e_[0] > 1 else 1
+            if s_[0] + e_[0] == dims[0]:
+                s_[0] -= 1
+        first = ("w", s_, t_, e_, [g.val(nt) for _ in range(prod(e_))])
+        tail = [dims[0] - 1] + [0] * (rank - 1), [1] * rank, [1] + list(dims[1:])
+        full = ("r",) + tuple(g.full(dims))
+        ops_fill = [first, full, ("r",) + tail, ("reopen",), full, ("r",) + tail]
+        ops_written = [first, ("r", s_, t_, e_), ("reopen",), ("r", s_, t_, e_)]
+        def mk(cfg, ops, tag):
+            x = Rec(0, dims, nt, 1, fill, cfg, ops, tag)
+            x.nofill = 1
+            return x
+        recs.append(mk({"kind": 0}, ops_written, "sd-nofill"))
+        for coder, p in ((RLE, 0), (SKPHUFF, NTS[nt][0] // 8), (DEFLATE, r.randrange(1, 10))):
+            recs.append(mk({"kind": 2, "coder": coder, "p1": p}, ops_fill, "sd-nofill-comp"))
+        cl = g.chunk_shape(dims)
+        gen_ops = [first] + g.base_ops(dims, nt, r.randrange(2, 6))
+        recs.append(mk({"kind": 1, "cl": cl, "cache": r.choice([0, 1, 2])}, g.chunk_variant(dims, cl, nt, gen_ops), "sd-nofill-chunk"))
+        coder, p = r.choice([(RLE, 0), (DEFLATE, 6)])
+        recs.append(mk({"kind": 3, "cl": cl, "cache": 1, "coder": coder, "p1": p}, g.chunk_variant(dims, cl, nt, gen_ops), "sd-nofill-chunk"))
+        if NTS[nt][1] is not None:
+            sb, bl, se, fo = g.nbit_params(nt)
+            recs.append(make_exact(mk({"kind": 4, "p1": sb, "p2": bl, "p3": se, "p4": fo}, ops_fill, "sd-nofill-nbit")))
+            recs[-1].nofill = 1
+    # (b) more than a megabyte in front of the first write
+    for _ in range(1 if tier == "quick" else 4):
+        nt = 6                      # 8-byte elements keep the element count (and the list-based specification) small
+        sz = NTS[nt][0] // 8
+        lo, hi = vrange(nt)
+        fill = r.randrange(lo, hi + 1)
+        cols = r.choice([1, 1, 3])
+        pieces = 1 if tier == "quick" else r.choice([1, 2])
+        lead_bytes = pieces * 1000000 + r.randrange(1, 999999)
+        lead_rows = lead_bytes // (sz * cols) + 1
+        rows = lead_rows + r.randrange(2, 12)
+        dims = [rows] if cols == 1 else [rows, cols]
+        k = r.randrange(1, min(6, rows - lead_rows) + 1)
+        s_, t_, e_ = [lead_rows] + [0] * (len(dims) - 1), [1] * len(dims), [k] + list(dims[1:])
+        ops = [("w", s_, t_, e_, [g.val(nt) for _ in range(prod(e_))]), ("r", s_, t_, e_)]
+        near = [max(0, lead_rows - 2)] + [0] * (len(dims) - 1), [1] * len(dims), [min(rows - max(0, lead_rows - 2), k + 4)] + list(dims[1:])
+        ops += [("r",) + near, ("reopen",), ("r",) + near,
+                ("r", [rows - 1] + [0] * (len(dims) - 1), [1] * len(dims), [1] + list(dims[1:])),
+                ("r", [0] * len(dims), [1] * len(dims), [1] + list(dims[1:]))]
+        recs.append(Rec(0, dims, nt, 1, fill, {"kind": 0}, ops, "sd-large"))
+        recs.append(Rec(0, dims, nt, 1, fill, {"kind": 2, "coder": DEFLATE, "p1": 1}, ops, "sd-large-comp"))
+        recs.append(Rec(0, dims, nt, 1, fill, {"kind": 2, "coder": RLE, "p1": 0}, ops, "sd-large-comp"))
+        cl = [r.choice([1000, 4096, 30000])] + ([cols] if cols > 1 else [])
+        cl[0] = min(cl[0], rows)
+        recs.append(Rec(0, dims, nt, 1, fill, {"kind": 1, "cl": cl, "cache": r.choice([0, 1, 3])}, ops, "sd-large-chunk"))
+        recs.append(Rec(0, dims, nt, 1, fill, {"kind": 5, "p1": r.choice([0, 7])}, ops, "sd-large"))
+    # (c) GR with strides (writes into new and existing images, reads), every layout that takes partial writes
+    for _ in range(reps * 3):
+        ncomp = r.choice([1, 2, 3])
+        ydim, xdim = r.randrange(2, 9), r.randrange(2, 9)
+        gd = [ydim, xdim, ncomp]
+        nt = r.choice([21, 20, 23, 24, 5])
+        lo, hi = vrange(nt)
+        hasfill = r.choice([0, 1, 1])
+        fill = r.randrange(lo, hi + 1) if hasfill else 0
+        ops = []
+        for n_op in range(r.randrange(2, 7)):
+            c = r.random() if n_op else 0.0
+            s_, t_, e_ = g.slab([ydim, xdim])
+            if n_op == 0 and r.random() < 0.7:            # sub-sampled first write not ending at the last column
+                t_[1] = r.choice([2, 3])
+                e_[1] = max(1, min(e_[1], (xdim - 2 - s_[1]) // t_[1] + 1))
+                if s_[1] + (e_[1] - 1) * t_[1] >= xdim:
+                    s_[1], e_[1] = 0, 1
+            s_, t_, e_ = s_ + [0], t_ + [1], e_ + [ncomp]
+            if c < 0.5:
+                ops.append(("w", s_, t_, e_, [g.val(nt) for _ in range(prod(e_))]))
+            elif c < 0.9:
+                ops.append(("r", s_, t_, e_) if r.random() < 0.5 else ("r",) + tuple(g.full(gd)))
+            else:
+                ops.append(("reopen",))
+        ops += [("r",) + tuple(g.full(gd)), ("reopen",), ("r",) + tuple(g.full(gd))]
+        recs.append(Rec(1, gd, nt, hasfill, fill, {"kind": 0}, ops, "gr-strided"))
+        cdims = [xdim, ydim, ncomp]
+        cl = g.chunk_shape(cdims[:2]) + [ncomp]
+        recs.append(Rec(1, gd, nt, hasfill, fill, {"kind": 1, "cl": cl, "cache": r.choice([0, 1, 2])},
+                        g.chunk_variant(cdims, cl, nt, ops), "gr-strided-chunk"))
+        recs.append(Rec(1, gd, nt, hasfill, fill, {"kind": 5, "p1": r.choice([0, 11])}, ops, "gr-strided-external"))
+    return recs
+
+
 def exhaustive_records(g, maxd):
     """every chunk shape of every extent up to maxd, cache sizes 1..chunks+1, one fixed history shape per extent"""
     recs = []
@@ -663,7 +778,8 @@ def run_harness(ctx, recs, tag):
     keep_build_alive(ctx)
     rc, out = vc.sh([exe, p, wd], timeout=1500, env=e)
     R = out.splitlines()
-    rcm, S = vc.run_lines(mod, p, timeout=3000, args=("hist",))
+    rcm, out_s = vc.sh("ulimit -s unlimited 2>/dev/null; exec '%s' hist '%s'" % (mod, p), timeout=3000, env=dict(vc.HARNESS_ENV))
+    S = out_s.splitlines()
     os.unlink(p)
     for f in os.listdir(wd):
         try:
@@ -845,7 +961,7 @@ def shrink(ctx, rec, budget=40):
     i = 0
     while i < len(cur.ops) and budget > 0:
         cand = Rec(cur.api, cur.dims, cur.nt, cur.hasfill, cur.fill, cur.cfg, cur.ops[:i] + cur.ops[i + 1:], cur.tag)
-        cand.pre, cand.post = cur.pre, cur.post
+        cand.pre, cand.post, cand.nofill, cand.late = cur.pre, cur.post, cur.nofill, cur.late
         if rec.ops and rec.ops[0][0] == "w" and (not cand.ops or cand.ops[0] != rec.ops[0]):
             i += 1       # stay inside the domain: a history that starts by giving the dataset its data keeps doing so
             continue     # (GR images and external datasets are only compared after they got data)
@@ -1127,12 +1243,18 @@ def run(ctx):
     recs += coder_param_records(g, ctx.tier)
     recs += interlace_records(g, ctx.tier)
     recs += hlevel_records(g, ctx.tier)
+    recs += round4_records(g, ctx.tier)
     recs += exhaustive_records(g, (3, 3, 2) if quick else (4, 4, 3))
     # the dataset's other metadata must not matter: in about half of all records other attributes (text, int32[2],
     # float64) are set before and/or after the fill value, ahead of the layout-selection call
     for rec in recs:
         if rec.tag != "corpus" and ctx.rng.random() < 0.5:
             rec.pre, rec.post = ctx.rng.choice([(1, 0), (2, 0), (3, 1), (0, 2), (1, 1), (2, 3)])
+    # the layout may be selected in a later session than the one that created the dataset (SD, every layout call)
+    for rec in recs:
+        if rec.tag != "corpus" and rec.api == 0 and rec.cfg["kind"] in (1, 2, 3, 4, 5, 7) and ctx.rng.random() < 0.3:
+            rec.late = 1
+    stats["_late"] = {"layout_selected_in_a_later_session": sum(1 for x in recs if x.late)}
     stats["_attrs"] = {"records_with_other_attributes": sum(1 for x in recs if x.pre or x.post),
                        "fill_not_first_attribute": sum(1 for x in recs if x.pre and x.hasfill)}
     check_records(ctx, recs, "main", stats)
